@@ -326,6 +326,21 @@ def run_unencodable(spec, acc):
         m8 = copy.deepcopy(good)
         m8.fields[0] = {"id": m8.fields[0].id, "value": 1}
         bad.append(("field_object_wrong_type", m8))
+        # messages that are unencodable AND cannot even be rendered (as JSON, as text): values beyond 64 bits, a lone
+        # surrogate in a string header, no message object at all
+        if num is not None:
+            m9 = copy.deepcopy(good)
+            f9 = next(x for x in m9.fields if x.id == num.id)
+            f9.value = f9.raw_value = 2 ** 70
+            bad.append(("field_value_beyond_64_bits", m9))
+        m10 = copy.deepcopy(good)
+        m10.PGN = 2 ** 70
+        bad.append(("pgn_beyond_64_bits", m10))
+        m11 = copy.deepcopy(good)
+        m11.fields = m11.fields[:-1] if len(m11.fields) > 1 else []
+        m11.description = "\ud800"
+        bad.append(("missing_field_and_unrenderable_text", m11))
+        bad.append(("no_message_object", None))
     for label, m in bad:
         async def scenario(sim, m=m):
             sim.spawn("connect")
@@ -340,9 +355,9 @@ def run_unencodable(spec, acc):
         sim, stats = simgw.run_session(kind, scenario)
         acc.count("sessions")
         acc.count("unencodable_sends_checked")
-        acc.case((kind, label, m.PGN, m.id))
+        acc.case((kind, label, getattr(m, "PGN", None), getattr(m, "id", None)))
         acc.cover("unencodable_kinds", f"{kind}/{label}")
-        w = {"client": kind, "label": label, "pgn": m.PGN, "id": m.id}
+        w = {"client": kind, "label": label, "pgn": getattr(m, "PGN", None), "id": getattr(m, "id", None)}
         if stats["error"]:
             acc.inconclusive_because(f"simulator: {stats['error']}")
             continue
